@@ -105,6 +105,8 @@ func c16(r *mon.Run) {
 		"[a]", "[a, b]", "{x: a}", "{x: a, y: b}", "a.[b]", "a.{x: b}", "a[*].[b]", "a[*].{x: b}", "a || b", "a && b", "!a", "a == b", "a < b", "a | b", "a | [0]",
 		"keys(a)", "values(a)", "keys(@)", "values(@)", "sort(a)", "sort_by(a, &b)", "sort_by(a, &@)", "reverse(a)", "map(&b, a)", "map(&@, a)", "to_array(a)", "to_array(@)", "merge(a)", "merge(a, a)", "merge(@, @)",
 		"not_null(a, b)", "max(a)", "min(a)", "sum(a)", "avg(a)", "max_by(a, &b)", "min_by(a, &@)", "join(',', a)", "length(a)", "to_string(a)", "to_number(a)", "type(a)", "contains(a, b)", "[a[*], a[], a.*]",
+		"merge(@, {self: @})", "merge(a, {k: a})", "a | merge(@, {d: @})", "[merge(a, {h: [a]})]", "merge({x: a}, {y: a}).x", "merge(a, {b: a.b})",
+		"max(a[*].b)", "min(a[*].b)", "max(a[?b].b)", "min(a[?b > `5`].b)", "max(a[].b)", "min(a[1:].b)", "max(a[:0])", "sum(a[*].b)", "avg(a[?b].b)", "avg(a[*].b)", "max(*)", "min(a.*)", "max_by(a[?b], &b)", "sort(a[*].b)", "join('', a[*].b)",
 	}
 	tdocs := []interface{}{
 		docs.J(`{}`), docs.J(`[]`), docs.J(`null`), docs.J(`{"a":[]}`), docs.J(`{"a":{}}`), docs.J(`{"a":null,"b":null}`), docs.J(`{"a":[[]],"b":[]}`), docs.J(`{"a":[{}],"b":{}}`),
